@@ -4,7 +4,14 @@
 //
 //	mk2 <id> <hash> <base64url(hash)>            => <CommonName>
 //	mk1 <id> <token>                             => <CommonName>
-//	extract <cn> <issued id | ->                 => ok,<id>,<token>,<v1|v2> | err,format | err,unknown | panic
+//	extract <cn> <issued>                        => ok,<id>,<token>,<v1|v2> | err,format | err,unknown | panic
+//	uniq <cnA> <issuedA> <cnB> <issuedB>         => <extract result A>;<extract result B>
+//
+// <issued> says how the subject was built: `-` hand-made (no statement about it), `<id>` by MakeSubjectV2(id, hash),
+// `v1,<id>,<hex token>` by MakeSubjectV1(id, token).  For issued subjects the oracle demands the identity of the statement
+// (v2: token = whole subject; v1: token = the whole legacy token, whatever it contains), `uniq` presents two issued subjects
+// (same id, related tokens: shared prefixes up to a separator, one a prefix of the other, v1 against v2 text) and demands
+// distinct identities for distinct subjects.
 //	req <pow verdict> <pub> <sha256(pub)> <base64url(sha256 pub)>
 //	                                             => ok,<cn>,<cert key>,<verifies under CA>,<identity id>,<identity token>,<version> | err,<pow verdict>
 //	renew <e|g|p: der empty/garbage/parsed> <verifies under CA> <cn> <version by the real Extract | err | panic> <pow verdict>
@@ -274,6 +281,127 @@ func randID() uint64 {
 var cnParts = []string{"v1", "v2", "v3", "V2", "", "0", "1", "42", "007", "+1", "-1", "1_0", " 1", "x", "18446744073709551615", "18446744073709551616",
 	"99999999999999999999999", "a:b", ":", "tok", "dG9r", "=", "v2:1"}
 
+func issuedV1(id uint64, tok string) string {
+	return fmt.Sprintf("v1,%d,%s", id, hlib.HexS(tok))
+}
+
+// legacy (v1) tokens are free text: pieces of the usual pool and random printable / base64 text, joined by any of a few
+// delimiters — the subject separator among them — so that tokens with 0, 1, 2, … separators, empty pieces, leading and
+// trailing separators all occur
+func legacyToken(g *hlib.Rng) string {
+	k := 1 + g.Intn(4)
+	var b strings.Builder
+	for j := 0; j < k; j++ {
+		if j > 0 {
+			b.WriteString(hlib.Pick(g, []string{":", ":", ":", "::", "/", ".", "-", "@", ""}))
+		}
+		switch g.Intn(4) {
+		case 0:
+			b.WriteString(hlib.Pick(g, cnParts))
+		case 1:
+			b.WriteString(base64.URLEncoding.EncodeToString(g.Bytes(g.Intn(9))))
+		case 2:
+			b.WriteString(hlib.Pick(g, []string{"tenant", "alice", "bob", "org", "edge", "client", "a", "b", ""}))
+		default:
+			n := g.Intn(6)
+			for i := 0; i < n; i++ {
+				b.WriteByte("abcxyz019:_-"[g.Intn(12)])
+			}
+		}
+	}
+	return b.String()
+}
+
+// a token related to t: another last piece, a piece more, a piece less, a separator more, or an unrelated one
+func relatedToken(g *hlib.Rng, t string) string {
+	seps := []int{}
+	for i := 0; i < len(t); i++ {
+		if t[i] == ':' {
+			seps = append(seps, i)
+		}
+	}
+	switch g.Intn(6) {
+	case 0:
+		if len(seps) > 0 {
+			return t[:seps[g.Intn(len(seps))]+1] + legacyToken(g)
+		}
+		return t + ":" + legacyToken(g)
+	case 1:
+		return t + ":" + hlib.Pick(g, cnParts)
+	case 2:
+		if len(seps) > 0 {
+			return t[:seps[g.Intn(len(seps))]]
+		}
+		return t + ":"
+	case 3:
+		return t + hlib.Pick(g, []string{":", "::", "x", "="})
+	case 4:
+		return t
+	default:
+		return legacyToken(g)
+	}
+}
+
+type issuedSubject struct{ cn, how string }
+
+func doUniq(a, b issuedSubject) {
+	ra, _ := extractTok(a.cn)
+	rb, _ := extractTok(b.cn)
+	r.Emit("uniq "+hlib.HexS(a.cn)+" "+a.how+" "+hlib.HexS(b.cn)+" "+b.how, ra+";"+rb)
+	r.Case("u" + a.cn + "\x00" + b.cn)
+	same := "distinct"
+	if a.cn == b.cn {
+		same = "same"
+	}
+	r.Count("uniq:" + same + "," + lastField(ra) + "," + lastField(rb))
+}
+
+// pairs of issued subjects; own random stream (derived from the seed) so that the older generators keep theirs
+func genIssuedPairs(n int) {
+	g := hlib.NewRng(r.Seed ^ 0xC32C32C32)
+	mkV1 := func(id uint64, tok string) issuedSubject {
+		cn := doMk1(id, tok)
+		doExtract(cn, issuedV1(id, tok))
+		return issuedSubject{cn, issuedV1(id, tok)}
+	}
+	mkV2 := func(id uint64, hash []byte) issuedSubject {
+		cn := doMk2(id, hash)
+		return issuedSubject{cn, strconv.FormatUint(id, 10)}
+	}
+	for i := 0; i < n; i++ {
+		id := hlib.Pick(g, idPool)
+		if g.Chance(60) {
+			id = g.U64() >> uint(g.Intn(64))
+		}
+		id2 := id
+		if g.Chance(15) {
+			id2 = hlib.Pick(g, idPool)
+		}
+		switch g.Intn(6) {
+		case 0, 1, 2: // two legacy tokens, related
+			t := legacyToken(g)
+			doUniq(mkV1(id, t), mkV1(id2, relatedToken(g, t)))
+		case 3: // v2 against v2: same / other hash
+			h := g.Bytes(g.Intn(40))
+			h2 := h
+			if g.Chance(70) {
+				h2 = g.Bytes(g.Intn(40))
+			}
+			doUniq(mkV2(id, h), mkV2(id2, h2))
+		case 4: // v1 whose token is (a piece of) a v2 subject, against that v2 subject
+			b := mkV2(id, g.Bytes(g.Intn(40)))
+			t := b.cn
+			if g.Bool() {
+				t = b.cn[strings.LastIndex(b.cn, ":")+1:]
+			}
+			doUniq(mkV1(id2, t), b)
+		default: // v1 against v1 with the id digits moved into the token: "v1:1:2:x" is (1,"2:x"), never (12, "x")
+			t := legacyToken(g)
+			doUniq(mkV1(id, t), mkV1(id/10, strconv.FormatUint(id%10, 10)+":"+t))
+		}
+	}
+}
+
 func genSubjects(n int) {
 	for i := 0; i < n; i++ {
 		switch rng.Intn(5) {
@@ -286,7 +414,8 @@ func genSubjects(n int) {
 			if rng.Bool() {
 				tok = base64.URLEncoding.EncodeToString(rng.Bytes(rng.Intn(12)))
 			}
-			doExtract(doMk1(randID(), tok), "-")
+			id := randID()
+			doExtract(doMk1(id, tok), issuedV1(id, tok))
 		case 2:
 			k := rng.Intn(5)
 			var ps []string
@@ -589,6 +718,7 @@ func main() {
 	r = hlib.Start()
 	rng = hlib.NewRng(r.Seed)
 	r.Rule = "subjects: MakeSubjectV1/V2 over boundary + random uint64 ids and random hashes, hand-made CommonNames (versions, signs, overflow, missing parts, arbitrary bytes); " +
+		"pairs of issued subjects (legacy tokens built from pieces joined by separators incl. the subject separator, related by shared prefix / extra or missing piece; v2 pairs; v1 against v2) judged for identity uniqueness; " +
 		"server: per round a fresh ed25519 key with a real difficulty-18 proof (CreateRequest), RequestCertificate with valid/tampered proofs, then RenewCertificate with ONE deviation each: " +
 		"proof of another key, other certificate, foreign CA, self-signed, v1 subject, odd subjects, bad/no proof, empty/garbage DER, ECDSA certificate, wrong EKU, expired certificate. non-trivial = distinct op line"
 	setups := makeSetups()
@@ -604,6 +734,10 @@ func main() {
 			case "extract":
 				if len(t) >= 3 {
 					doExtract(string(hlib.UnHex(t[1])), t[2])
+				}
+			case "uniq":
+				if len(t) >= 5 {
+					doUniq(issuedSubject{string(hlib.UnHex(t[1])), t[2]}, issuedSubject{string(hlib.UnHex(t[3])), t[4]})
 				}
 			case "mk2":
 				if len(t) >= 3 {
@@ -628,6 +762,7 @@ func main() {
 		nsub, rounds = 100000, 400
 	}
 	genSubjects(nsub)
+	genIssuedPairs(nsub / 4)
 	// every configuration gets its share of the rounds; the order is drawn so that no configuration is always last
 	share := []int{30, 25, 20, 15, 10}
 	order := []int{0, 1, 2, 3, 4}
